@@ -73,4 +73,62 @@ Theorem C05_fragment_child_lines_have_their_parent_earlier :
   forall ss : stmts, parents_ok (r_lines (parse_file_model (render_prog ss) [])) = true.
 Proof. exact fragment_parents_ok. Qed.
 
+(* THE HYPOTHESIS H-W1 OF THE RENDERING THEOREMS, ON THE SEARCH MODEL (it used to be monitored only: unit levels): a token whose LAST
+   decision is the first-token break of a top-level, non-Eof line of level L ends - after the first phase, or after both - with exactly L
+   indentation units, no continuation, no spaces, one or two line breaks; the first decision of a top-level line is that break unless
+   the token is token 0 or must not break (inline comments); the first token of a child line that is broken off starts at one of the
+   whitespaces the ChildLineOption arms give (cls_options_ws).  The "last decision" hypothesis is needed: with overlapping lines of
+   conditional directives a token that starts a top-level line can be decided again as a continuation of another (witness). *)
+From PasfmtVerif Require Import Model.WrapContexts Model.WrapSearch Model.WrapFormat Proofs.WrapSearchProofs Proofs.WrapEventsProofs Proofs.WrapLevelsProofs Proofs.WrapChildLevelsProofs.
+Theorem C05_top_level_line_starts_at_its_level :
+  forall (rs : rsettings) (W : wsettings) (fms : bool) (lines : list lline) 
+    (l : list ftoken) (t : nat) (tok : token) (f : fmt) (ds : list decision) 
+    (ind cont L : N),
+  nth_error (fst (fst (olf_model rs W fms lines l))) t = Some (tok, f) ->
+  decs_for t (olf_plan1 W lines l ++ (if fms then olf_plan2 rs W lines l else [])) =
+  ds ++ [DBreak true ind cont] ->
+  starts_top lines t L -> f_ind f = L /\ f_cont f = 0 /\ f_sp f = 0 /\ 1 <= f_nl f <= 2.
+Proof. exact olf_line_starts. Qed.
+
+Theorem C05_first_decision_of_a_top_level_line :
+  forall (W : wsettings) (lvs : list lview) (fm depth : nat) (st : sst) 
+    (lv : lview) (g : N) (gs : list N) (r : trec) (rs : list trec) 
+    (st1 : sst) (s : solution),
+  lv_gtoks lv = g :: gs ->
+  lv_recs lv = r :: rs ->
+  solve W lvs fm depth st lv (lv_level lv, 0) (WrapNoBreakProofs.top_first lv) = (st1, Some s) ->
+  exists (lll : N) (rest : list event),
+    recon_events lvs s (lv_gtoks lv) =
+    Ev_D g
+      (if (g =? 0) || bid match tr_inv r with
+                          | Some DR_MustNotBreak => true
+                          | _ => false
+                          end
+       then None
+       else Some (true, lv_level lv, 0)) lll true :: rest.
+Proof. exact top_line_first_event. Qed.
+
+Theorem C05_child_line_starts_at_an_option_whitespace :
+  forall (rs : rsettings) (W : wsettings) (lines : list lline) (l : list ftoken) 
+    (t : nat) (tok : token) (f : fmt) (ds : list decision) (ind cont : N),
+  let lvs := mk_lviews (map tokinfo_of l) lines in
+  nth_error (fst (fst (olf_model rs W false lines l))) t = Some (tok, f) ->
+  decs_for t (olf_plan1 W lines l) = ds ++ [DBreak true ind cont] ->
+  f_ind f = ind /\
+  f_cont f = cont /\
+  f_sp f = 0 /\
+  1 <= f_nl f <= 2 /\
+  (exists (k : nat) (lv : lview),
+     nth_error lvs k = Some lv /\
+     hd_error (lv_gtoks lv) = Some (N.of_nat t) /\ line_ws lvs lv (ind, cont)).
+Proof. exact olf_phase1_any_line_start. Qed.
+
+Theorem C05_levels_need_the_last_decision_witness :
+  starts_top ov_lines 25 0 /\
+  decs_for 25 (olf_plan1 ov_W ov_lines ov_l) = [DBreak true 0 0; DBreak false 0 1] /\
+  option_map (fun p : ftoken => (f_nl (snd p), f_ind (snd p), f_cont (snd p), f_sp (snd p)))
+    (nth_error (fst (fst (olf_model WrapTwoPhaseProofs.ml2_rsA ov_W false ov_lines ov_l))) 25) =
+  Some (1, 0, 1, 0).
+Proof. exact levels_without_last_decision_refuted. Qed.
+
 
